@@ -23,6 +23,7 @@
 #include <sys/syscall.h>
 #include <sys/types.h>
 #include <sys/uio.h>
+#include <time.h>
 #include <unistd.h>
 
 #ifndef PATH_MAX
@@ -103,6 +104,7 @@ static const char *g_fault_path = ".jnl";
 static int g_fault_errno = EIO;
 static long g_fault_short = -1;
 static int g_fault_sticky;
+static long g_fault_delay_ms; /* the failing call sleeps this long (mutex released) before reporting the error */
 
 static long g_count;       /* events seen */
 static long g_match;       /* events matching the fault filter */
@@ -236,6 +238,7 @@ static void do_init(void)
         g_fault_errno = EIO;
     g_fault_short = env_long("FJSHIM_FAULT_SHORT", -1);
     g_fault_sticky = env_long("FJSHIM_FAULT_STICKY", 0) != 0;
+    g_fault_delay_ms = env_long("FJSHIM_FAULT_DELAY_MS", 0);
     s = getenv("FJSHIM_FAULT_PATH");
     if (s)
         g_fault_path = s; /* empty string matches every path */
@@ -608,6 +611,7 @@ static void ev_die(const ev_t *ev, const char *tail)
  */
 static int ev_begin(ev_t *ev, const char *call, int cls, long long off, long long len)
 {
+    long delay = 0;
     ev->n = 0;
     ev->act = A_PASS;
     ev->k = 0;
@@ -643,6 +647,8 @@ static int ev_begin(ev_t *ev, const char *call, int cls, long long off, long lon
     if (g_fault_at > 0 && (g_fault_class == 0 || g_fault_class == cls) &&
         strstr(ev->rel, g_fault_path) != NULL) {
         long m = ++g_match;
+        if (m == g_fault_at && g_fault_delay_ms > 0)
+            delay = g_fault_delay_ms;
         if (m == g_fault_at) {
             if (g_fault_short >= 0 && cls == C_WRITE && len > g_fault_short) {
                 ev->act = A_SHORT;
@@ -661,6 +667,10 @@ static int ev_begin(ev_t *ev, const char *call, int cls, long long off, long lon
         }
     }
     pthread_mutex_unlock(&g_mu);
+    if (delay > 0) {
+        struct timespec ts = { delay / 1000, (delay % 1000) * 1000000L };
+        nanosleep(&ts, NULL);
+    }
     return 1;
 }
 
